@@ -127,6 +127,16 @@ pub fn run(_a: &HashMap<String, String>) -> (usize, usize) {
         if !refused(Box::new(|| { let _ = Exec::cmd("c").stderr(Redirection::Merge).stderr(Redirection::Pipe); })) {
             v.push("C16/second-setting-refused: stderr Merge then Pipe was accepted silently".to_string());
         }
+        if !refused(Box::new(|| { let _ = Exec::cmd("c").stdout(Redirection::Merge).stdout(Redirection::Merge); })) {
+            v.push("C16/second-setting-refused: stdout Merge then Merge was accepted silently".to_string());
+        }
+        if !refused(Box::new(|| {
+            let f1 = std::fs::File::create(format!("{}/b1.{}", RT, std::process::id())).unwrap();
+            let f2 = std::fs::File::create(format!("{}/b2.{}", RT, std::process::id())).unwrap();
+            let _ = Exec::cmd("c").stderr(f1).stderr(f2);
+        })) {
+            v.push("C16/second-setting-refused: a second, different file for stderr was accepted silently".to_string());
+        }
         if !refused(Box::new(|| { let _ = Exec::cmd("c").stdin(Redirection::Pipe).stdin("data"); })) {
             v.push("C16/second-setting-refused: stdin Pipe then data was accepted silently".to_string());
         }
